@@ -104,6 +104,66 @@ def _ops_text(job):
     return [op["a"] + (":" + op.get("k", op.get("p", "")) if op.get("k") or op.get("p") else "") for op in (job or {}).get("ops", [])]
 
 
+def _binding_gate(ck, rows):
+    """Hand-corrupt one field at a time in a recorded, accepted sweep execution (Reset, SetPdef, Solve,
+    GetPlannerData, Solve, GetPlannerData, Destroy); the trace spec must name the matching clause."""
+    blocks, cur = [], []
+    for r in rows:
+        if r["e"] == "Reset" and cur:
+            blocks.append(cur)
+            cur = []
+        cur.append(r)
+    blocks.append(cur)
+    seed_block = None
+    for b in blocks:
+        if [r["e"] for r in b] == ["Reset", "SetPdef", "Solve", "GetPlannerData", "Solve", "GetPlannerData", "Destroy"] \
+                and b[2]["status"] in ("EXACT_SOLUTION", "APPROXIMATE_SOLUTION") and any(x["added"] for x in b[2]["sols"]) \
+                and b[2]["kval"] >= 0 and b[6]["live"] == 0 and b[6]["badFrees"] == 0 and b[3]["stale"] == 0 \
+                and all(x["stale"] == 0 for x in b[2]["sols"]) and b[4]["nBefore"] >= 1:
+            seed_block = b
+            break
+    if seed_block is None:
+        raise FrameworkError("binding gate (C03 control): no clean sweep execution recorded")
+
+    def added(ev):
+        return next(x for x in ev["sols"] if x["added"])
+    muts = [
+        ("noLeakAfterGetPlannerData", lambda b: b[6].__setitem__("live", 3)),
+        ("noDoubleFree", lambda b: b[6].__setitem__("badFrees", 1)),
+        ("boundedReturn", lambda b: b[2].__setitem__("evals", b[2]["kval"] + 100)),
+        ("freshForgetsOldQueries", lambda b: added(b[2]).__setitem__("stale", 1)),
+        ("replayMatches", lambda b: added(b[2]).__setitem__("replayMatches", False)),
+        ("allStepsValid", lambda b: added(b[2]).__setitem__("allStepsValid", False)),
+        ("startIsAStart", lambda b: added(b[2]).__setitem__("startIsAStart", False)),
+        ("durationsWholeSteps", lambda b: added(b[2]).__setitem__("durationsWholeSteps", False)),
+        ("nonSolutionAddsNothing", lambda b: b[2].__setitem__("status", "TIMEOUT")),
+        ("exactStatusHoldsExact", lambda b: (b[2].__setitem__("status", "EXACT_SOLUTION"), b[2].__setitem__("hasExact", False))),
+        ("noSolutionLost", lambda b: b[4].__setitem__("nAfter", b[4]["nBefore"] - 1)),
+        ("solutionsVanishedBetweenCalls", lambda b: b[4].__setitem__("nBefore", b[4]["nBefore"] + 1)),
+        ("plannerDataForgetsOldQueries", lambda b: b[3].__setitem__("stale", 2)),
+        ("Crash", lambda b: b.insert(3, {"e": "Crash", "what": "SIGSEGV"})),
+        ("Hang", lambda b: b.insert(3, {"e": "Hang", "planner": b[0]["planner"]})),
+    ]
+    out_rows, spans = [], []
+    for clause, fn in muts:
+        b = json.loads(json.dumps(seed_block))
+        fn(b)
+        spans.append((len(out_rows) + 1, len(out_rows) + len(b), clause))
+        out_rows += b
+    tp = os.path.join(WORK, "c03ctl-selftest-%d.ndjson" % os.getpid())
+    vlib.write_ndjson(tp, out_rows)
+    _, verdicts = _judge(tp)
+    os.unlink(tp)
+    missed = []
+    for lo, hi, clause in spans:
+        got = {c for v in verdicts if lo <= v["line"] <= hi for c in v["failed"]}
+        if clause not in got:
+            missed.append(clause)
+    if missed:
+        raise FrameworkError("binding gate (C03 control): corrupted executions not rejected by clauses %s" % missed)
+    ck.set("control_corrupted_executions_rejected", len(muts))
+
+
 def control_lifecycle(ck, tier, graph=None, binary=None):
     """Adds the control-planner half of C03 to the check `ck`.  graph: optional (g, out) from
     c03.lifecycle_graph(ck) when the caller has already computed it."""
@@ -171,6 +231,7 @@ def control_lifecycle(ck, tier, graph=None, binary=None):
             or len(destroys) < execs // 2 or fresh_again < 8) and not ck.violations:
         raise FrameworkError("vacuity gate (C03 control): planners without interrupted solves / added solutions %s, statuses %s, "
                              "%d destroy reports of %d executions, %d solves after clear" % (missing, st, len(destroys), execs, fresh_again))
+    _binding_gate(ck, rows)
     ex = [r for r in rows[:60] if r["e"] in ("SetPdef", "Solve", "Clear", "Destroy")][:6]
     ck.sample({"kind": "recorded control life cycle excerpt",
                "events": [{k: v for k, v in r.items() if k in ("e", "p", "k", "planner", "system", "status", "evals", "nBefore", "nAfter", "live")}
